@@ -312,7 +312,8 @@ func (e *env) createETH(p clientPlan) {
 // TSS
 
 func (e *env) createTSS(p clientPlan, tss sdk.AccAddress) {
-	cs := &tsstypes.ClientState{TssAddress: tss.String(), Pubkey: []byte("pubkey-" + p.Name), PartPubkeys: [][]byte{[]byte("p1"), []byte("p2")}}
+	// Vals doubles as the key generation of a TSS client (an upgrade rotates the key)
+	cs := &tsstypes.ClientState{TssAddress: tss.String(), Pubkey: []byte(fmt.Sprintf("pubkey-%s-%d", p.Name, p.Vals)), PartPubkeys: [][]byte{[]byte("p1"), []byte("p2")}}
 	kit.Must(cs.Validate(), "tss client state")
 	kit.Must(e.ck().CreateClient(e.ctx, p.Name, cs, &tsstypes.ConsensusState{}), "create TSS client")
 }
